@@ -5,10 +5,11 @@
 (* action binds the logged fields and evaluates the property rules of       *)
 (* DESIGN.md Appendix B against the Ref layer.                              *)
 (***************************************************************************)
-EXTENDS TraceBase, Compress, NameText, Txt, Values
+EXTENDS TraceBase, Compress, Txt, Values, Store
 
-VARIABLES l          \* index of the next event to consume
-vars == <<l>>
+VARIABLES l,         \* index of the next event to consume
+          st         \* abstract state carried through a session (store / mDNS events): see Reset
+vars == <<l, st>>
 
 Ev == Rec[l]
 
@@ -366,11 +367,94 @@ TraceReparse ==
           <<"comp", Ev.b3[1], Ev.p3[1], IF Ev.p3[1] = "ok" THEN PktDiff(Ev.p3[2], Ev.p1[2]) ELSE "-", "p1.rcode", Ev.p1[2].rcode>>)
 
 -----------------------------------------------------------------------------
-Init == l = 1
+(* Store sessions (C13, C20): the abstract store of Store.tla is carried in st   *)
+(* and evolved by the recorded operations; every reply / query of the real store *)
+(* must lie within what the abstract store allows at that moment.                *)
+(*   st.auth   : set of authoritative record keys                                *)
+(*   st.cached : function key -> <<lo, hi>>, the interval (ms) that contains the *)
+(*               instant at which the cached record expires; it is narrowed by   *)
+(*               every query that shows the record alive or gone                 *)
+EmptyStore == [auth |-> {}, cached |-> <<>>]
 
-Next == /\ l <= Len(Rec)
-        /\ l' = l + 1
-        /\ \/ TraceHdrWords
+TtlSeconds(ttl) == IF ttl[1] > 0 \/ ttl[2] > 0 THEN 1000000 ELSE ttl[3] * 256 + ttl[4]
+DropKey(f, k) == [x \in DOMAIN f \ {k} |-> f[x]]
+PutKey(f, k, v) == [x \in DOMAIN f \cup {k} |-> IF x = k THEN v ELSE f[x]]
+Max(a, b) == IF a > b THEN a ELSE b
+Min(a, b) == IF a < b THEN a ELSE b
+
+TraceReset == Ev.ev = "Reset" /\ st' = EmptyStore
+
+TraceStoreOp ==
+  /\ Ev.ev = "StoreOp"
+  /\ Rule(l, "NoPanic", Ev.out # "panic", <<"store", Ev.op>>)
+  /\ LET k == IF Ev.op = "clear" THEN <<>> ELSE KeyOf(Ev.rec) IN
+     CASE Ev.op = "add_auth" -> st' = [auth |-> st.auth \cup {k}, cached |-> DropKey(st.cached, k)]
+       [] Ev.op = "add_cached" ->
+            IF k \in st.auth THEN st' = st       \* a locally registered record stays authoritative
+            ELSE LET life == (IF Ev.rec.cf THEN 1 ELSE TtlSeconds(Ev.rec.ttl)) * 1000 IN
+                 st' = [st EXCEPT !.cached = PutKey(@, k, <<Ev.t0 + life, Ev.t1 + life>>)]
+       [] Ev.op = "remove" -> st' = [auth |-> st.auth \ {k}, cached |-> DropKey(st.cached, k)]
+       [] Ev.op = "clear" -> st' = EmptyStore
+
+\* a store query over [t0, t1] with one of the four filters returned the records e.recs
+FilterAuth(f) == f \in {"auth", "auth_sub", "all"}
+FilterCached(f) == f \in {"cached", "all"}
+FilterSub(f) == f # "auth"
+TraceStoreQuery ==
+  /\ Ev.ev = "StoreQuery"
+  /\ LET got == {KeyOf(Ev.recs[i]) : i \in 1 .. Len(Ev.recs)}
+         f == Ev.filter
+         owned(k) == IF FilterSub(f) THEN OwnerRelated(k.name, Ev.name) ELSE k.name = Ev.name
+         exact == {k \in DOMAIN st.cached : k.name = Ev.name} IN
+     /\ Rule(l, "NoPanic", ~Ev.panicked, <<"get_domain_resources", f>>)
+     \* only stored records of the requested kinds, under the requested name
+     /\ Rule(l, "QueryUpper",
+             \A k \in got : owned(k) /\ ((FilterAuth(f) /\ k \in st.auth) \/ (FilterCached(f) /\ k \in DOMAIN st.cached)),
+             <<"filter", f, "stray", {k \in got : ~(owned(k) /\ (k \in st.auth \/ k \in DOMAIN st.cached))}>>)
+     /\ Rule(l, "AuthNotCached", (~FilterAuth(f)) => got \cap st.auth = {}, <<"authoritative record under the cached-only filter">>)
+     /\ Rule(l, "AuthForever", FilterAuth(f) => {k \in st.auth : k.name = Ev.name} \subseteq got,
+             <<"missing", {k \in st.auth : k.name = Ev.name} \ got>>)
+     \* a cached record shown now must not have expired before the query started
+     /\ Rule(l, "CacheExpired", FilterCached(f) => \A k \in got \cap DOMAIN st.cached : Ev.t0 < st.cached[k][2],
+             <<"returned-after-expiry", {<<k.name, st.cached[k], Ev.t0>> : k \in {x \in got \cap DOMAIN st.cached : Ev.t0 >= st.cached[x][2]}}>>)
+     \* a cached record owned by exactly the queried name and not shown must be able to have expired by the end
+     /\ Rule(l, "CacheVisible", FilterCached(f) => \A k \in exact \ got : Ev.t1 >= st.cached[k][1],
+             <<"hidden-before-expiry", {<<k.name, st.cached[k], Ev.t1>> : k \in {x \in exact \ got : Ev.t1 < st.cached[x][1]}}>>)
+     \* narrow the expiry intervals with what this query showed
+     /\ st' = IF FilterCached(f)
+              THEN [st EXCEPT !.cached = [k \in DOMAIN st.cached |->
+                       IF k \in got THEN <<Max(st.cached[k][1], Ev.t0 + 1), st.cached[k][2]>>
+                       ELSE IF k \in exact THEN <<st.cached[k][1], Min(st.cached[k][2], Ev.t1)>>
+                       ELSE st.cached[k]]]
+              ELSE st
+
+(* Reply: build_reply(query) against the store: e.out = <<"none">> | <<"some", pkt, unicast>> *)
+TraceReply ==
+  /\ Ev.ev = "Reply"
+  /\ st' = st
+  /\ Rule(l, "NoPanic", Ev.out[1] # "panic", <<"build_reply", Ev.out>>)
+  /\ LET upper == UpperAnswers(st.auth, Ev.qd)
+         lower == LowerAnswers(st.auth, Ev.qd) IN
+     IF Ev.out[1] = "some" THEN
+       LET p == Ev.out[2]
+           ans == {KeyOf(p.an[i]) : i \in 1 .. Len(p.an)}
+           add == {KeyOf(p.ar[i]) : i \in 1 .. Len(p.ar)} IN
+       /\ Rule(l, "ReplyUpper", ans \subseteq upper, <<"not-allowed", {<<k.name, k.type, k.class>> : k \in ans \ upper}>>)
+       /\ Rule(l, "ReplyLower", lower \subseteq ans, <<"missing", {<<k.name, k.type, k.class>> : k \in lower \ ans}>>)
+       /\ Rule(l, "ReplyAddl", \A a \in add : AdditionalOK(st.auth, ans, a),
+               <<"additional", {<<a.name, a.type>> : a \in {x \in add : ~AdditionalOK(st.auth, ans, x)}}>>)
+       /\ Rule(l, "ReplyMeta",
+               /\ p.id = Ev.id /\ Bit(p.fs, 15) /\ p.qd = <<>> /\ p.ns = <<>> /\ Len(p.an) > 0
+               /\ Ev.out[3] = (\E i \in 1 .. Len(Ev.qd) : Ev.qd[i].unicast),
+               <<"id", p.id, "fs", p.fs, "unicast", Ev.out[3]>>)
+     ELSE
+       Rule(l, "ReplyNone", Ev.out[1] = "none" => lower = {}, <<"no-reply-but-must-answer", {<<k.name, k.type>> : k \in lower}>>)
+
+-----------------------------------------------------------------------------
+Init == l = 1 /\ st = EmptyStore
+
+Stateless ==
+        \/ TraceHdrWords
            \/ TraceHdrBuilds
            \/ TraceFlagOps
            \/ TraceNameDecode
@@ -378,6 +462,11 @@ Next == /\ l <= Len(Rec)
            \/ TraceTxtSplit \/ TraceTxtAttrs \/ TraceTxtRaw \/ TraceTxtLong \/ TraceCStrNew
            \/ TraceValueCmp \/ TraceParse \/ TracePeek \/ TraceInspect \/ TraceSinkBuild \/ TraceRoundTrip \/ TraceReparse
            \/ TraceCodeConv \/ TraceMnemonics \/ TraceMatchType \/ TraceMatchClass
+
+Next == /\ l <= Len(Rec)
+        /\ l' = l + 1
+        /\ \/ (Stateless /\ UNCHANGED st)
+           \/ TraceReset \/ TraceStoreOp \/ TraceStoreQuery \/ TraceReply
 
 Spec == Init /\ [][Next]_vars
 
